@@ -1424,4 +1424,113 @@ example (c : P3 ℝ) :
 -- (polynomial coefficients, vertex order, `np.roots` outputs) from the C05 tables; its hypotheses are the
 -- conclusions of C05's `quad_corner`, whose own non-vacuity example lives in Props/C05.
 
+/-! ## 12. Polar lock on the regenerated tables without a panner hypothesis (C05 exactness plugged in) -/
+
+/-- the C13 table of a layout and the C05 region table of the same layout describe the same loudspeakers: same
+number, and `layout.norm_positions[k]` (C13, exact fraction) is the position of channel `k` in the C05 table (exact
+binary64 value), with output index `k` -/
+def normMatches (L : Gen.C13.Layout) (l : PointSource.RawLayout) : Bool :=
+  L.name == l.name && L.norm.length == PointSource.Cover.nSpeakers l &&
+  (List.range L.norm.length).all fun k =>
+    PointSource.Cover.speakerOut l k == k &&
+    match PointSource.Cover.speakerPos l k with
+    | some v =>
+      let q := p3Of (L.norm.getD k [])
+      q.x == PointSource.f2Rat v.1 && q.y == PointSource.f2Rat v.2.1 && q.z == PointSource.f2Rat v.2.2
+    | none => false
+
+/-- Table obligation: the ten C13 tables and the ten C05 tables agree (same order, same names, same positions). -/
+theorem norm_tables_match :
+    (Gen.C13.layouts.length == Gen.C05.layouts.length &&
+      (Gen.C13.layouts.zip Gen.C05.layouts).all fun Ll => normMatches Ll.1 Ll.2) = true := by
+  decide +kernel
+
+/-- **C05 exactness in C13's terms**: on matching tables the concrete point-source panner answers `e_k` at
+`layout.norm_positions[k]` -/
+theorem pspHandle_exact_at_norm (L : Gen.C13.Layout) (l : PointSource.RawLayout) (hl : l ∈ Gen.C05.layouts)
+    (hm : normMatches L l = true) (k : Nat) (c : P3 ℝ) (hc : ((L.norm.map p3Of).map castP3)[k]? = some c) :
+    GainCalc.pspHandle l (vec3 c) = some (unitR ((L.norm.map p3Of).map castP3).length k) := by
+  simp only [normMatches, Bool.and_eq_true, beq_iff_eq, List.all_eq_true, List.mem_range] at hm
+  obtain ⟨⟨_, hlen⟩, hall⟩ := hm
+  have hk : k < L.norm.length := by
+    by_contra hge
+    rw [List.getElem?_eq_none (by simp; omega)] at hc
+    exact absurd hc (by simp)
+  obtain ⟨hout, hpos⟩ := hall k hk
+  obtain ⟨v, hv, hex⟩ := PointSource.pspHandle_exact_at_speaker_layouts l hl k (by rw [← hlen]; exact hk)
+  rw [hv] at hpos
+  simp only [Bool.and_eq_true, beq_iff_eq] at hpos
+  obtain ⟨⟨hx, hy⟩, hz⟩ := hpos
+  have hce : c = castP3 (p3Of (L.norm.getD k [])) := by
+    rw [List.getElem?_map, List.getElem?_map, List.getElem?_eq_getElem hk] at hc
+    simp only [Option.map_some, Option.some.injEq] at hc
+    rw [← hc, List.getD_eq_getElem?_getD, List.getElem?_eq_getElem hk]
+    rfl
+  have hvec : vec3 c = (PointSource.p3 v : PointSource.Vec3 ℝ) := by
+    rw [hce]
+    simp only [vec3, castP3, hx, hy, hz]
+    rfl
+  rw [hvec, hex, hout, ← hlen]
+  simp only [List.length_map]
+  rfl
+
+/-- **Polar channel lock renders exactly one loudspeaker, the nearest by the rule — on the ten regenerated layouts,
+with the concrete C05 panner and NO panner hypothesis** (`polar_lock_one_speaker_layouts_partial` + C05's
+`pspHandle_exact_at_speaker_layouts`).  `L`, `l`: the C13 and C05 tables of the same layout (number `i` of both
+lists; that they describe the same loudspeakers is the table obligation `norm_tables_match`). -/
+theorem polar_lock_one_speaker_layouts (i : Nat) (L : Gen.C13.Layout) (l : PointSource.RawLayout)
+    (hL : Gen.C13.layouts[i]? = some L) (hl : Gen.C05.layouts[i]? = some l)
+    (fuel : Nat) (spks : List (Spk ℝ)) (prio : List Nat)
+    (groups : List (List (List Nat))) (zones : List (Zone ℝ)) (p : P3 ℝ)
+    (lock : Option (Option ℝ)) (gain diffuse : ℝ) (zmask : List Bool) (k : Nat) (d f : List ℝ)
+    (hg : groupsOK ((L.norm.map p3Of).map castP3).length groups = true)
+    (h : renderPolarLock fuel spks ((L.norm.map p3Of).map castP3) prio groups zones
+      (fun q => GainCalc.pspHandle l (vec3 q)) p lock gain diffuse = some (zmask, .locked k, (d, f)))
+    (hne : isExcl zmask k = false) (hhead : (groups.getD k []).head? = some [k]) :
+    k < ((L.norm.map p3Of).map castP3).length ∧
+    d = (unitR ((L.norm.map p3Of).map castP3).length k).map (fun v => v * gain * Real.sqrt (1 - diffuse)) ∧
+    f = (unitR ((L.norm.map p3Of).map castP3).length k).map (fun v => v * gain * Real.sqrt diffuse) ∧
+    ∃ maxD, lock = some maxD ∧
+      NearestByRule false ((L.norm.map p3Of).map castP3) prio
+        (List.replicate ((L.norm.map p3Of).map castP3).length false) p maxD k := by
+  have hmatch : normMatches L l = true := by
+    have := norm_tables_match
+    simp only [Bool.and_eq_true, beq_iff_eq, List.all_eq_true] at this
+    apply this.2 (L, l)
+    rw [List.mem_iff_getElem?]
+    refine ⟨i, ?_⟩
+    rw [List.getElem?_zip_eq_some]
+    exact ⟨hL, hl⟩
+  exact polar_lock_one_speaker_layouts_partial l fuel spks _ prio groups zones p lock gain diffuse zmask k d f hg h hne
+    hhead (fun c hc => pspHandle_exact_at_norm L l (List.mem_of_getElem? hl) hmatch k c hc)
+
+/-- non-vacuity of `polar_lock_one_speaker_layouts`: 0+5+0 (tables number 1), no zones, object at M+000, lock without
+maxDistance: the composed polar path with the CONCRETE panner is defined, locks to M+000 and renders `e_2`·gain -/
+example (gain diffuse : ℝ) :
+    ∃ d f, renderPolarLock 4 (List.replicate 5 (⟨0, 0, 0, 0, 0⟩ : Spk ℝ))
+        ((Gen.C13.L_0_5_0.norm.map p3Of).map castP3) Gen.C13.L_0_5_0.prio Gen.C13.L_0_5_0.groups []
+        (fun q => GainCalc.pspHandle Gen.C05.L1 (vec3 q)) ⟨0, 1, 0⟩ (some none) gain diffuse =
+          some (List.replicate 5 false, .locked 2, (d, f)) ∧
+      d = (unitR 5 2).map (fun v => v * gain * Real.sqrt (1 - diffuse)) := by
+  have hlen : ((Gen.C13.L_0_5_0.norm.map p3Of).map castP3).length = 5 := by simp [Gen.C13.L_0_5_0]
+  have h2 : (Gen.C13.L_0_5_0.norm.map p3Of)[2]'(by decide) = ⟨0, 1, 0⟩ := by decide +kernel
+  have hl := lock_at_speaker_table false (Gen.C13.L_0_5_0.norm.map p3Of) (by decide +kernel) Gen.C13.L_0_5_0.prio
+    (List.replicate 5 false) 2 (by decide) (isExcl_replicate_false 5 2)
+  have hc : castP3 ⟨0, 1, 0⟩ = (⟨0, 1, 0⟩ : P3 ℝ) := by simp [castP3]
+  rw [h2, hc] at hl
+  have hmatch : normMatches Gen.C13.L_0_5_0 Gen.C05.L1 = true := by decide +kernel
+  have hex : ∀ c, ((Gen.C13.L_0_5_0.norm.map p3Of).map castP3)[2]? = some c →
+      (fun q => GainCalc.pspHandle Gen.C05.L1 (vec3 q)) c =
+        some (unitR ((Gen.C13.L_0_5_0.norm.map p3Of).map castP3).length 2) :=
+    fun c hc' => pspHandle_exact_at_norm _ _ (by simp [Gen.C05.layouts]) hmatch 2 c hc'
+  have hg : groupsOK ((Gen.C13.L_0_5_0.norm.map p3Of).map castP3).length Gen.C13.L_0_5_0.groups = true := by
+    rw [hlen]; decide +kernel
+  obtain ⟨d, f, h⟩ := polar_lock_defined 4 (List.replicate 5 (⟨0, 0, 0, 0, 0⟩ : Spk ℝ)) _ Gen.C13.L_0_5_0.prio
+    Gen.C13.L_0_5_0.groups [] _ ⟨0, 1, 0⟩ (some none) gain diffuse (List.replicate 5 false) 2 hg
+    (by rw [hlen]; exact hl) hex rfl (by rw [hlen, List.length_replicate])
+  obtain ⟨_, hd, _, _⟩ := polar_lock_one_speaker_layouts 1 Gen.C13.L_0_5_0 Gen.C05.L1 rfl rfl
+    4 _ _ _ [] ⟨0, 1, 0⟩ (some none) gain diffuse _ 2 d f hg h (isExcl_replicate_false 5 2) (by decide +kernel)
+  rw [hlen] at hd
+  exact ⟨d, f, h, hd⟩
+
 end Earverif.C13
